@@ -47,11 +47,43 @@ def check_c12(case, ctx):
     ctx.nontrivial_if(n >= 3)
     if n == 2:
         ctx.label("two-team-special-case")
+    if case.get("then_rate"):
+        # the ordinary flow: predict, rate (which updates these very objects in place), predict again with the same objects and model:
+        # the second prediction must be the closed form of the NEW values
+        objs = mk_teams(m, teams)
+        first = guarded(m.predict_draw, objs, what="predict_draw")
+        guarded(m.predict_rank, objs, what="predict_rank")
+        guarded(m.predict_win, objs, what="predict_win")
+        res = guarded(m.rate, objs, what="rate", ranks=list(range(n)))
+        new_teams = [[[p.mu, p.sigma] for p in t] for t in res]
+        again = {"win": guarded(m.predict_win, res, what="predict_win"), "draw": guarded(m.predict_draw, res, what="predict_draw"),
+                 "rank": [p for _, p in guarded(m.predict_rank, res, what="predict_rank")]}
+        ctx.called(7)
+        refs = {"win": refpredict.predict_win(new_teams, beta), "draw": refpredict.predict_draw(new_teams, beta), "rank": refpredict.predict_rank_probs(new_teams, beta)}
+        for name in ("win", "rank"):
+            for i in range(n):
+                if abs(M(again[name][i]) - refs[name][i]) > TOL:
+                    raise Violation(f"after-rate:{name}", f"{kind} n={n}: predict_{name}[{i}] after rate() on the same objects = {again[name][i]!r}, closed form of the updated "
+                                                          f"ratings {float(refs[name][i])!r}")
+        if abs(M(again["draw"]) - refs["draw"]) > TOL:
+            raise Violation("after-rate:draw", f"{kind} n={n}: predict_draw after rate() on the same objects = {again['draw']!r} (before: {first!r}), closed form of the updated "
+                                               f"ratings {float(refs['draw'])!r}")
+        ctx.label("predict-rate-predict")
+
+
+from hypothesis import strategies as st  # noqa: E402
+
+
+@st.composite
+def cases(draw):
+    c = draw(pred_cases())
+    c["then_rate"] = draw(st.integers(0, 3)) == 0
+    return c
 
 
 PROPERTY = Property(
     pid="C12",
-    clauses=[Clause(name="closed-forms", strategy=pred_cases(), check=check_c12, quick=4000, thorough=60000,
+    clauses=[Clause(name="closed-forms", strategy=cases(), check=check_c12, quick=4000, thorough=60000,
                     rule="one list of teams; all numbers of predict_win / predict_draw / predict_rank vs a 50-digit evaluation of the stated closed forms; "
                          "non-trivial = >= 3 teams (two-team cases are labelled: they exercise the N-vs-n special case)")],
     rule="generated teams (2..8 x 1..8, all regimes, scale 1e-3..1e3, all five classes); oracle: 1e-9 absolute agreement with mpmath closed forms of C12; "
